@@ -694,9 +694,16 @@ def serve_unix(
         else:
             _serve_socket_sequential(server, sock, UnixTransport)
     finally:
-        sock.close()
-        if bound_identity is not None:
-            _unlink_bound_unix_socket(path, bound_identity)
+        # Clean up the dirent while the listener is still open: the open socket
+        # pins its inode, so (st_dev, st_ino) cannot be recycled for a
+        # successor's socket bound to the same path, and no successor replaces
+        # the path while a probe of it still succeeds.  Closing first would let
+        # a relaunch bind the path in between and have its live socket removed.
+        try:
+            if bound_identity is not None:
+                _unlink_bound_unix_socket(path, bound_identity)
+        finally:
+            sock.close()
 
 
 def _serve_socket_sequential(
